@@ -50,6 +50,112 @@ type c13Reply struct {
 	Sname string  `json:"sname,omitempty"`
 	// v6: T1, T2 of the IA_NA and preferred / valid lifetime of its address, as 32-bit wire values (0: one hour)
 	Life [4]uint32 `json:"lifetimes,omitempty"`
+	// how the reply's options are laid out on the wire (0: as the library's encoder writes them). Every layout is
+	// well formed and says the same: another order, pad octets between options, values split into fragments that
+	// are adjacent or have other options between them (RFC 3396), a long option around the others; v6: another order
+	Layout int `json:"layout,omitempty"`
+}
+
+// c13Relayout4 rewrites the options area of an encoded DHCPv4 packet (octets 240..End) in another well-formed layout.
+func c13Relayout4(b []byte, mode int) []byte {
+	if len(b) < 240 || mode == 0 {
+		return b
+	}
+	type item struct {
+		code byte
+		val  []byte
+	}
+	var items []item
+	for i := 240; i < len(b) && b[i] != 255; {
+		if b[i] == 0 {
+			i++
+			continue
+		}
+		if i+1 >= len(b) || i+2+int(b[i+1]) > len(b) {
+			return b
+		}
+		items = append(items, item{b[i], b[i+2 : i+2+int(b[i+1])]})
+		i += 2 + int(b[i+1])
+	}
+	out := append([]byte{}, b[:240]...)
+	put := func(c byte, v []byte) { out = append(append(out, c, byte(len(v))), v...) }
+	switch mode {
+	case 1:
+		for i := len(items) - 1; i >= 0; i-- {
+			put(items[i].code, items[i].val)
+		}
+	case 2:
+		for _, it := range items {
+			out = append(out, 0)
+			put(it.code, it.val)
+			out = append(out, 0, 0)
+		}
+	case 3, 4:
+		var second []item
+		for _, it := range items {
+			if len(it.val) < 2 {
+				put(it.code, it.val)
+				continue
+			}
+			h := len(it.val) / 2
+			put(it.code, it.val[:h])
+			if mode == 3 {
+				put(it.code, it.val[h:])
+			} else {
+				second = append(second, item{it.code, it.val[h:]})
+			}
+		}
+		for _, it := range second {
+			put(it.code, it.val)
+		}
+	default:
+		long := make([]byte, 300)
+		for i := range long {
+			long[i] = byte(i)
+		}
+		put(43, long[:255])
+		for _, it := range items {
+			put(it.code, it.val)
+		}
+		put(43, long[255:])
+	}
+	out = append(out, 255)
+	if mode == 2 {
+		out = append(out, 0, 0, 0)
+	}
+	return out
+}
+
+// c13Relayout6 rewrites the top-level options of an encoded DHCPv6 message in another order.
+func c13Relayout6(b []byte, mode int) []byte {
+	if len(b) < 4 || mode == 0 {
+		return b
+	}
+	var opts [][]byte
+	for i := 4; i < len(b); {
+		if i+4 > len(b) || i+4+int(b[i+2])<<8+int(b[i+3]) > len(b) {
+			return b
+		}
+		n := 4 + int(b[i+2])<<8 + int(b[i+3])
+		opts = append(opts, b[i:i+n])
+		i += n
+	}
+	out := append([]byte{}, b[:4]...)
+	switch mode % 3 {
+	case 1:
+		for i := len(opts) - 1; i >= 0; i-- {
+			out = append(out, opts[i]...)
+		}
+	case 2:
+		for i := range opts {
+			out = append(out, opts[(i+1)%len(opts)]...)
+		}
+	default:
+		for i := range opts {
+			out = append(out, opts[(i+len(opts)-1)%len(opts)]...)
+		}
+	}
+	return out
 }
 
 type c13Case struct {
@@ -306,6 +412,9 @@ func c13Reply4(r c13Reply, si int, xid []byte, chaddr net.HardwareAddr, serial i
 	d.Xid = append([]byte{}, p.TransactionID[:]...)
 	d.Good = r.Op == 0 && r.HW == 0
 	d.Yi = append([]byte{}, r.Yi...)
+	if r.PadTo == 0 {
+		return c13Relayout4(p.ToBytes(), r.Layout)
+	}
 	return p.ToBytes()
 }
 
@@ -349,6 +458,9 @@ func c13Reply6(r c13Reply, si int, req *dhcpv6.Message, serial int, d *c13Delive
 	}
 	d.Xid = append([]byte{}, m.TransactionID[:]...)
 	d.Good = true
+	if r.PadTo == 0 {
+		return c13Relayout6(m.ToBytes(), r.Layout)
+	}
 	return m.ToBytes()
 }
 
@@ -851,6 +963,7 @@ func c13Hostile(t *rapid.T, r *c13Reply, s int) {
 		r.Gi = []byte{10, 99, byte(s), 1}
 	}
 	r.Bcast = rapid.IntRange(0, 3).Draw(t, "bcast") == 0
+	r.Layout = rapid.SampledFrom([]int{0, 0, 0, 1, 2, 3, 4, 5}).Draw(t, "layout")
 	if rapid.IntRange(0, 5).Draw(t, "sname") == 0 {
 		r.Sname = "srv" + fmt.Sprint(s)
 	}
